@@ -62,6 +62,10 @@ Proof.
   intro H. induction l as [|a l IH]; simpl; [apply reads_ret|].
   apply reads_bind; [apply H|]. intro. apply reads_bind; [exact IH | intro; apply reads_ret].
 Qed.
+Lemma reads_for_each {A} (l : list A) (f : A -> M unit) : (forall a, reads (f a)) -> reads (for_each l f).
+Proof.
+  intro H. induction l as [|a l IH]; simpl; [apply reads_ret|]. apply reads_bind; [apply H | intro; exact IH].
+Qed.
 Lemma reads_name_prop n : reads (name_prop n).
 Proof. unfold name_prop. destruct (nname n); [apply reads_ret | apply reads_raise]. Qed.
 Lemma reads_type_is x t : reads (type_is x t).
@@ -163,6 +167,7 @@ Create HintDb reads.
   reads_check_node_unique reads_q_first_nb reads_need reads_check_class reads_name_prop reads_type_is : reads.
 #[export] Hint Extern 2 (reads (bind _ _)) => apply reads_bind; [|intro] : reads.
 #[export] Hint Extern 2 (reads (mapM _ _)) => apply reads_mapM; intro : reads.
+#[export] Hint Extern 2 (reads (for_each _ _)) => apply reads_for_each; intro : reads.
 #[export] Hint Extern 1 (reads props) => unfold props : reads.
 #[export] Hint Extern 1 (reads (props _)) => unfold props : reads.
 
@@ -655,33 +660,34 @@ Proof.
   peel H W. peel H W.
   apply bind_inv in H as [[s1 [id [H1 H2]]]|[e [H1 _]]]; [apply ret_inv in H2 as [-> _]|];
     unfold new_link in H1.
-  all: peel H1 W; peel H1 W; peel H1 W; peel H1 W.
+  all: peel H1 W; peel H1 W; peel H1 W; peel H1 W; peel H1 W.
+  all: match type of W with WF (sg ?sc) => rename sc into scur end.
   all: unfold add_link_pre in P; apply andb_true_iff in P as [ND PF]; apply nodup_b_NoDup in ND.
-  all: apply bind_inv in H1 as [[s2 [[] [Ha Hb]]]|[e' [Ha _]]];
+  all: apply bind_inv in H1 as [[sX [[] [Ha Hb]]]|[e' [Ha _]]];
     [| apply add_node_inv in Ha as [[Ha _]|[e2 [_ Hg]]]; [discriminate | rewrite Hg; exact W]].
   all: apply add_node_inv in Ha as [[_ [Hf Hg]]|[e2 [He _]]]; [|discriminate].
   all: match type of Hg with sg _ = g_add_node _ (mk ?x KLink _ _ _) => set (lk := x) in * end.
-  all: assert (W2 : WF (sg s2)) by
+  all: assert (W2 : WF (sg sX)) by
       (rewrite Hg; apply WF_add_plain; [exact W|]; unfold plain_ok, fresh, new_node_ok;
        assert (V : vocab_ok (mk lk KLink (Some ltype) name false) = true) by exact T; rewrite V, Hf; simpl;
        apply has_name_free; assumption).
-  all: assert (Hcl : cls_is (sg s2) lk KLink = true) by
+  all: assert (Hcl : cls_is (sg sX) lk KLink = true) by
       (rewrite Hg; unfold cls_is, cls_of; pose proof (find_nodes_add_node_same _ _ Hf) as Fn;
        change (nid (mk lk KLink (Some ltype) name false)) with lk in Fn; rewrite Fn; reflexivity).
-  all: assert (Hold : forall y k, has_id (sg s0) y = true -> cls_is (sg s2) y k = cls_is (sg s0) y k /\ forall t, typ_is (sg s2) y t = typ_is (sg s0) y t) by
+  all: assert (Hold : forall y k, has_id (sg scur) y = true -> cls_is (sg sX) y k = cls_is (sg scur) y k /\ forall t, typ_is (sg sX) y t = typ_is (sg scur) y t) by
       (intros y k Hy; rewrite Hg; assert (y <> nid (mk lk KLink (Some ltype) name false)) by (intro E; subst y; simpl in Hf; simpl in Hy; congruence);
        split; [apply cls_is_ext; apply find_nodes_add_node_other; assumption | intro t; apply typ_is_ext; apply find_nodes_add_node_other; assumption]).
-  all: assert (Hnb : nbrs (sg s2) lk = []) by (rewrite Hg, nbrs_add_node; apply nbrs_fresh_nil; [apply (wf_edge_ends _ W) | exact Hf]).
-  all: assert (Hifs : forall i, In i ifs -> cls_is (sg s2) i KCP = true /\ typ_is (sg s2) i sServicePort = false /\ no_edge (sg s2) lk i = true) by
+  all: assert (Hnb : nbrs (sg sX) lk = []) by (rewrite Hg, nbrs_add_node; apply nbrs_fresh_nil; [apply (wf_edge_ends _ W) | exact Hf]).
+  all: assert (Hifs : forall i, In i ifs -> cls_is (sg sX) i KCP = true /\ typ_is (sg sX) i sServicePort = false /\ no_edge (sg sX) lk i = true) by
       (intros i Hi; rewrite forallb_forall in PF; specialize (PF _ Hi); apply andb_true_iff in PF as [C1 C2]; apply negb_true_iff in C2;
        pose proof (cls_is_has_id _ _ _ C1) as Hh; destruct (Hold i KCP Hh) as [E1 E2]; rewrite E1, E2;
        split; [exact C1|]; split; [exact C2|];
-       rewrite Hg; change (no_edge (sg s0) lk i = true);
-       unfold no_edge; apply negb_true_iff; destruct (existsb (fun e => same_ends e lk i) (gedges (sg s0))) eqn:E; [|reflexivity];
+       rewrite Hg; change (no_edge (sg scur) lk i = true);
+       unfold no_edge; apply negb_true_iff; destruct (existsb (fun e => same_ends e lk i) (gedges (sg scur))) eqn:E; [|reflexivity];
        apply existsb_exists in E as [e0 [He0 Hs]]; destruct (wf_edge_ends _ W _ He0) as [A B]; apply has_id_In in A; apply has_id_In in B;
-       unfold same_ends in Hs; apply orb_true_iff in Hs as [Hs|Hs]; apply andb_true_iff in Hs as [Hs1 Hs2];
-       apply str_eqb_eq in Hs1; apply str_eqb_eq in Hs2; simpl in Hf; congruence).
-  all: assert (Hys : forall y, In y (first_nb (sg s2) lk Connects KCP) -> typ_is (sg s2) y sServicePort = false) by
+       unfold same_ends in Hs; apply orb_true_iff in Hs as [Hs|Hs]; apply andb_true_iff in Hs as [Hs1 HsX];
+       apply str_eqb_eq in Hs1; apply str_eqb_eq in HsX; simpl in Hf; congruence).
+  all: assert (Hys : forall y, In y (first_nb (sg sX) lk Connects KCP) -> typ_is (sg sX) y sServicePort = false) by
       (intros y Hy; apply In_first_nb in Hy as [Hy _]; rewrite Hnb in Hy; destruct Hy).
   - apply bind_inv in Hb as [[s3 [[] [Hc Hd]]]|[e3 [Hc _]]].
     + apply ret_inv in Hd as [-> _]. eapply link_loop; eauto.
@@ -702,10 +708,6 @@ Proof.
   apply service_types_in_vocab_partial; [apply mem_str_In; exact H1 | apply str_eqb_neq; exact H2].
 Qed.
 
-Lemma reads_for_each {A} (l : list A) (f : A -> M unit) : (forall a, reads (f a)) -> reads (for_each l f).
-Proof.
-  intro H. induction l as [|a l IH]; simpl; [apply reads_ret|]. apply reads_bind; [apply H | intro; exact IH].
-Qed.
 Lemma reads_for_each_need l : reads (for_each l (need KCP)).
 Proof. apply reads_for_each. intro. apply reads_need. Qed.
 
